@@ -392,6 +392,9 @@ class Unit:
             if meth == 'append':
                 base.append(args[0])
                 return None
+            if meth == 'extend':
+                base.extend(args[0])
+                return None
         raise Unsupported(f'bound method {name}', line)
 
     # ------------------------------------------------------------------------------------------
